@@ -1,1 +1,96 @@
-Require Import JF.Model.Kinematics.
+(** * Props/C07.v — Particles move continuously at recorded velocity; events only hand velocity over.
+
+    Model: [JF.Model.Kinematics] — global state of all units (exact rationals from the recorded bit
+    patterns), commit = override by the out-state, pending candidate times, current time.
+    Each recorded leg is checked LOCALLY ([leg_ok]); the theorems below lift the local facts to every
+    unit of the global state and to runs of any length.
+
+    Tie to the code: harness/c07.py replays every leg of traced real runs through [check_kcase] inside
+    Coq; [after_ok] additionally requires the model's global state to equal the real one after every
+    commit. *)
+From Coq Require Import ZArith QArith Qabs List Bool.
+Require Import JF.Base.F64 JF.Model.Kinematics JF.Proofs.KinematicsProofs.
+Import ListNotations.
+Open Scope Q_scope.
+
+(** Committed event times never decrease (and all pending candidates stay in the future): the
+    scheduler's pick is a minimum of the pending events (C06) and every new candidate is not earlier
+    than the current time (C14's add_never_decreases at the call sites). *)
+Theorem times_monotone :
+  forall Ls n s l s', pending_future s -> leg_ok Ls n s l = Some s' ->
+  s_now s <= s_now s' /\ pending_future s'.
+Proof. exact leg_time_monotone. Qed.
+Print Assumptions times_monotone.
+
+(** Frame + contract for EVERY unit of the global state at an accepted leg: a unit is either untouched
+    (bit-identical record: it does not move discontinuously, and does not move at all if it is not
+    moving) or replaced by an out-state unit satisfying [unit_ok]; the chain condition holds from the
+    start-of-run event on; the model state equals the real state. *)
+Theorem every_unit_frame_or_contract :
+  forall Ls n s l s', ids_nodup (map u_id (s_units s)) = true -> leg_ok Ls n s l = Some s' ->
+  exists T, leg_facts Ls s s' l T.
+Proof. exact leg_ok_facts. Qed.
+Print Assumptions every_unit_frame_or_contract.
+
+(** The contract implies continuity at the commit time: the old and the new trajectory of the unit,
+    evaluated exactly at the commit time, agree modulo the box within the rounding bound of the two
+    time-slices ([slice_tol]: relative 2^-50). *)
+Theorem continuity :
+  forall Ls k T tT u u', unit_ok Ls k T tT u u' = true -> continuous_at Ls k T u u'.
+Proof. exact unit_ok_continuous. Qed.
+Print Assumptions continuity.
+
+(** Inactive units do not move at all: an out-state unit that was not moving keeps its position
+    bit for bit (cell-boundary events only ever carry the active unit). *)
+Theorem inactive_do_not_move :
+  forall Ls k T tT u u', unit_ok Ls k T tT u u' = true -> moving u = false -> k <> KCellBoundary ->
+  vel_eqb (u_pos u) (u_pos u') = true.
+Proof. exact unit_ok_inactive_fixed. Qed.
+Print Assumptions inactive_do_not_move.
+
+(** Whole runs of any length: non-decreasing commit times; after every commit the identifiers are the
+    initial ones, every position lies in the box, all pending candidates lie in the future, and from the
+    start-of-run event on the moving point masses are one point mass or all point masses of one
+    composite object with one common velocity ([chain_ok]). *)
+Theorem accepted_run :
+  forall c : kcase, check_kcase c = true ->
+  exists ss,
+    run_states_k (map f2q (kc_L c)) 0 (kinit c) (kc_legs c) = Some ss /\
+    nondecreasing 0 ss /\
+    Forall (good (map f2q (kc_L c)) (map u_id (kc_init c))) ss.
+Proof. exact accepted_run_kinematics. Qed.
+Print Assumptions accepted_run.
+
+(** Meaning of [circ_le]: some integer number of box lengths separates the two values by at most tol. *)
+Theorem circ_le_sound :
+  forall a b L tol, circ_le a b L tol = true -> exists k : Z, Qabs (a - b - inject_Z k * L) <= tol.
+Proof.
+  intros a b L tol H. unfold circ_le in H. exists (nearest_k (a - b) L). apply Qle_bool_iff. exact H.
+Qed.
+Print Assumptions circ_le_sound.
+
+(** Non-vacuity: a two-particle run in one dimension (start of run, then a hand-over at t = 0.25)
+    is accepted; the same run with the first particle displaced at the hand-over is rejected. *)
+Definition b0 := 0%Z. Definition b025 := 4598175219545276416%Z. Definition b05 := 4602678819172646912%Z.
+Definition b075 := 4604930618986332160%Z. Definition b1 := 4607182418800017408%Z.
+Definition mk i p v t := {| u_id := [i]; u_pos := [of_bits p]; u_vel := v; u_ts := t; u_charge := [] |}.
+Definition ex_run (p_handover : Z) : kcase :=
+  {| kc_L := [of_bits b1];
+     kc_init := [mk 0%nat b025 None None; mk 1%nat b075 None None];
+     kc_legs :=
+       [ {| k_kind := KStart; k_cands := [(0%nat, (of_bits b0, of_bits b0))]; k_pick := 0%nat;
+            k_time := (of_bits b0, of_bits b0);
+            k_out := [mk 0%nat b025 (Some [of_bits b1]) (Some (of_bits b0, of_bits b0))];
+            k_trash := [0%nat];
+            k_after := [mk 0%nat b025 (Some [of_bits b1]) (Some (of_bits b0, of_bits b0))] |};
+         {| k_kind := KInteraction; k_cands := [(1%nat, (of_bits b0, of_bits b025))]; k_pick := 1%nat;
+            k_time := (of_bits b0, of_bits b025);
+            k_out := [mk 0%nat p_handover None None;
+                      mk 1%nat b075 (Some [of_bits b1]) (Some (of_bits b0, of_bits b025))];
+            k_trash := [1%nat];
+            k_after := [mk 0%nat p_handover None None;
+                        mk 1%nat b075 (Some [of_bits b1]) (Some (of_bits b0, of_bits b025))] |} ] |}.
+Example ex_run_accepted : check_kcase (ex_run b05) = true.
+Proof. vm_compute. reflexivity. Qed.
+Example ex_jump_rejected : check_kcase (ex_run b075) = false.
+Proof. vm_compute. reflexivity. Qed.
